@@ -5,6 +5,7 @@
 
 /* Maximum recursion depth to prevent stack overflow */
 #define MAX_RECURSION_DEPTH 1000
+#define MAX_ELSE_IF_CHAIN 32768
 
 #define MAX_PARSER_ERRORS 20
 
@@ -2325,7 +2326,19 @@ static ASTNode *parse_if_expression(Stage1Parser *p) {
         /* Check for 'else if' - parse as nested if expression */
         Token *next = current_token(p);
         if (next && next->token_type == TOKEN_IF) {
+            /* Every link of an else-if chain is one level of recursion here and in every later
+             * pass; it does not count against the expression nesting limit, so it has a limit
+             * of its own (a chain of 100 000 links overflowed the C stack). */
+            static int else_if_links = 0;
+            if (else_if_links >= MAX_ELSE_IF_CHAIN) {
+                parser_error(p, next->line, next->column,
+                        "Error at line %d, column %d: else-if chain longer than %d links\n",
+                        next->line, next->column, MAX_ELSE_IF_CHAIN);
+                return NULL;
+            }
+            else_if_links++;
             else_branch = parse_if_expression(p);
+            else_if_links--;
         } else {
             else_branch = parse_block(p);
         }
@@ -4669,11 +4682,24 @@ void free_ast(ASTNode *node) {
             free(node->as.set.name);
             free_ast(node->as.set.value);
             break;
-        case AST_IF:
-            free_ast(node->as.if_stmt.condition);
-            free_ast(node->as.if_stmt.then_branch);
-            free_ast(node->as.if_stmt.else_branch);
+        case AST_IF: {
+            /* An else-if chain is a list linked through else_branch: walk it instead of
+             * recursing once per link (a chain of 100 000 overflowed the stack here) */
+            ASTNode *link = node;
+            for (;;) {
+                free_ast(link->as.if_stmt.condition);
+                free_ast(link->as.if_stmt.then_branch);
+                ASTNode *next_link = link->as.if_stmt.else_branch;
+                if (link != node) free(link);
+                if (next_link && next_link->type == AST_IF) {
+                    link = next_link;
+                    continue;
+                }
+                free_ast(next_link);
+                break;
+            }
             break;
+        }
         case AST_COND:
             for (int i = 0; i < node->as.cond_expr.clause_count; i++) {
                 free_ast(node->as.cond_expr.conditions[i]);
